@@ -609,6 +609,201 @@ pub fn judge(spec: &StreamSpec, acc: &mut Acc) {
     }
 }
 
+// ---------------------------------------------------------------------------
+// The same property at the process boundary: the real binary fed batch by batch
+// ---------------------------------------------------------------------------
+
+/// One equal-sized document number `i` of the command-line streams (the output of each is equally long too).
+fn cli_doc(src: Fmt, i: usize) -> Vec<u8> {
+    let id = format!("{:07}", i % 10_000_000);
+    match src {
+        Fmt::Json => format!("{{\"id\":\"{id}\",\"text\":\"row of a live stream\"}}\n").into_bytes(),
+        Fmt::Yaml => format!("---\nid: \"{id}\"\ntext: row of a live stream\n").into_bytes(),
+        _ => {
+            let mut b = vec![0x82, 0xa2, b'i', b'd', 0xa7];
+            b.extend_from_slice(id.as_bytes());
+            b.extend_from_slice(&[0xa4, b't', b'e', b'x', b't', 0xb4]);
+            b.extend_from_slice(b"row of a live stream");
+            b
+        }
+    }
+}
+
+#[derive(Clone, Copy, Debug, PartialEq)]
+pub enum Channel {
+    Pipe,
+    /// standard input is one end of a connected AF_UNIX stream socket (socket activation, `xt < /dev/tcp/..`)
+    Socket,
+    /// a named FIFO given as a path operand
+    Fifo,
+}
+
+/// Feeds the release binary `batches` batches of `per_batch` documents through `channel`, and after each
+/// batch - with the input still open - waits (bounded) until the translations of all but the last three
+/// documents delivered so far have arrived on stdout. Also samples the process's resident set size.
+/// Returns Err(reason) for a violation, Ok(None) if inconclusive, Ok(Some(rss growth in KiB)).
+fn cli_stream_once(src: Fmt, detect: bool, to: Fmt, channel: Channel, batches: usize, per_batch: usize, wait_secs: u64, acc: &mut Acc) -> Result<Option<i64>, String> {
+    use std::os::fd::OwnedFd;
+    use std::process::{Command, Stdio};
+    use std::sync::atomic::{AtomicU64, Ordering};
+    use std::sync::Arc;
+    let one = run_slice(&cli_doc(src, 1), Some(src), to);
+    if !one.verdict.is_ok() || one.out.is_empty() {
+        return Ok(None);
+    }
+    let out_len = one.out.len() as u64;
+    let sc = crate::procmon::Scratch::new();
+    let mut cmd = Command::new(crate::procmon::release_bin());
+    cmd.arg("-t").arg(to.name()).current_dir(sc.path()).env_clear().stdout(Stdio::piped()).stderr(Stdio::piped());
+    if !detect {
+        cmd.arg("-f").arg(src.name());
+    }
+    let _g = crate::procmon::shared_guard();
+    let mut feed: Box<dyn Write + Send> = match channel {
+        Channel::Pipe => {
+            cmd.stdin(Stdio::piped());
+            Box::new(io::sink()) // replaced below
+        }
+        Channel::Socket => {
+            let (a, b) = match std::os::unix::net::UnixStream::pair() {
+                Ok(p) => p,
+                Err(_) => return Ok(None),
+            };
+            cmd.stdin(Stdio::from(OwnedFd::from(b)));
+            Box::new(a)
+        }
+        Channel::Fifo => {
+            sc.fifo("live");
+            cmd.arg("live").stdin(Stdio::null());
+            Box::new(io::sink()) // replaced below
+        }
+    };
+    let mut child = match cmd.spawn() {
+        Ok(c) => c,
+        Err(_) => return Ok(None),
+    };
+    drop(cmd);
+    match channel {
+        Channel::Pipe => feed = Box::new(child.stdin.take().unwrap()),
+        Channel::Fifo => match std::fs::OpenOptions::new().write(true).open(sc.path().join("live")) {
+            Ok(f) => feed = Box::new(f),
+            Err(_) => {
+                let _ = child.kill();
+                let _ = child.wait();
+                return Ok(None);
+            }
+        },
+        Channel::Socket => {}
+    }
+    let got = Arc::new(AtomicU64::new(0));
+    let mut so = child.stdout.take().unwrap();
+    let g2 = got.clone();
+    let reader = std::thread::spawn(move || {
+        let mut buf = [0u8; 65536];
+        loop {
+            match so.read(&mut buf) {
+                Ok(0) | Err(_) => break,
+                Ok(n) => {
+                    g2.fetch_add(n as u64, Ordering::SeqCst);
+                }
+            }
+        }
+    });
+    let mut se = child.stderr.take().unwrap();
+    let errs = std::thread::spawn(move || {
+        let mut v = vec![];
+        let _ = se.read_to_end(&mut v);
+        v
+    });
+    let pid = child.id();
+    let rss_kib = || -> i64 { std::fs::read_to_string(format!("/proc/{pid}/statm")).ok().and_then(|s| s.split_whitespace().nth(1).and_then(|x| x.parse::<i64>().ok())).map(|pages| pages * 4).unwrap_or(-1) };
+    let mut verdict: Result<Option<i64>, String> = Ok(None);
+    let mut rss_mid = -1i64;
+    let mut sent = 0usize;
+    'outer: for b in 0..batches {
+        let mut chunk = Vec::with_capacity(per_batch * 64);
+        for _ in 0..per_batch {
+            chunk.extend_from_slice(&cli_doc(src, sent));
+            sent += 1;
+        }
+        if feed.write_all(&chunk).and_then(|_| feed.flush()).is_err() {
+            verdict = Err(format!("the process stopped reading after {} documents", sent - per_batch));
+            break;
+        }
+        // bounded wait on a logical condition: all but the last three documents delivered so far are out
+        // (the binary writes through an 8 KiB buffer that it flushes when full and at the end of each input:
+        //  up to one buffer of finished translations may legitimately still sit there)
+        let need = ((sent.saturating_sub(3)) as u64 * out_len).saturating_sub(8192);
+        let mut waited = 0u64;
+        while got.load(Ordering::SeqCst) < need {
+            std::thread::sleep(std::time::Duration::from_millis(20));
+            waited += 20;
+            if waited >= wait_secs * 1000 {
+                verdict = Err(format!("batch {} of {}: {} documents delivered and the input still open, but only {} of their translations ({} bytes of {}) arrived within {} s", b + 1, batches, sent, got.load(Ordering::SeqCst) / out_len, got.load(Ordering::SeqCst), need, wait_secs));
+                break 'outer;
+            }
+        }
+        acc.add("cli_stream_batches_translated_while_the_input_was_open", 1);
+        if b == batches / 2 {
+            rss_mid = rss_kib();
+        }
+        if b + 1 == batches {
+            let end = rss_kib();
+            verdict = Ok(if rss_mid > 0 && end > 0 { Some(end - rss_mid) } else { None });
+        }
+    }
+    drop(feed);
+    // a generous watchdog for the exit itself
+    let mut waited = 0;
+    loop {
+        match child.try_wait() {
+            Ok(Some(_)) => break,
+            Ok(None) if waited < 30_000 => {
+                std::thread::sleep(std::time::Duration::from_millis(20));
+                waited += 20;
+            }
+            _ => {
+                let _ = child.kill();
+                let _ = child.wait();
+                break;
+            }
+        }
+    }
+    let _ = reader.join();
+    let stderr = errs.join().unwrap_or_default();
+    if verdict.is_ok() && got.load(Ordering::SeqCst) != sent as u64 * out_len {
+        return Err(format!("the stream of {} documents ended with {} bytes on stdout, expected {}; stderr [{}]", sent, got.load(Ordering::SeqCst), sent as u64 * out_len, crate::model::preview(&stderr, 160)));
+    }
+    verdict
+}
+
+pub fn cli_stream(src: Fmt, detect: bool, to: Fmt, channel: Channel, batches: usize, per_batch: usize, acc: &mut Acc) {
+    acc.evals += 1;
+    acc.count("cli_streams");
+    acc.count(&format!("cli_stream_{channel:?}"));
+    let mut r = cli_stream_once(src, detect, to, channel, batches, per_batch, 20, acc);
+    if r.is_err() {
+        // a wall-clock wait decided: say it again with a long wait before believing it
+        acc.count("cli_stream_delays_re_examined_with_a_long_wait");
+        r = cli_stream_once(src, detect, to, channel, batches, per_batch, 90, acc);
+    }
+    match r {
+        Ok(None) => acc.inconclusive += 1,
+        Ok(Some(growth)) => {
+            acc.max("max_cli_rss_growth_kib_second_half_of_stream", growth.max(0) as u64);
+            // second half of the stream: (batches/2) x per_batch more documents; a process that keeps them grows by
+            // their size at least. 4 MiB of slack covers allocator and page-cache noise.
+            let kept = ((batches - batches / 2 - 1) * per_batch * cli_doc(src, 0).len()) as i64 / 1024;
+            if growth > 4096 && growth > kept / 2 {
+                acc.violation(Violation { sig: format!("command line: resident memory grows with the stream ({} via {channel:?})", src.name()), case: json!({"part": "cli_stream", "source": src.name(), "detect": detect, "to": to.name(), "channel": format!("{channel:?}"), "batches": batches, "per_batch": per_batch}), observed: format!("resident set grew by {growth} KiB over the second half of the stream ({kept} KiB of input)"), expected: "no growth with the number of documents".into() });
+            } else {
+                acc.count("cli_stream_memory_flat");
+            }
+        }
+        Err(e) => acc.violation(Violation { sig: format!("command line: output withheld while the input is open ({}{} via {channel:?})", src.name(), if detect { " detected" } else { "" }), case: json!({"part": "cli_stream", "source": src.name(), "detect": detect, "to": to.name(), "channel": format!("{channel:?}"), "batches": batches, "per_batch": per_batch}), observed: e, expected: "all but the last three documents delivered so far (less one 8 KiB stdout buffer) translated while the input is still open".into() }),
+    }
+}
+
 pub fn specs(ctx: &Ctx) -> Vec<StreamSpec> {
     let mut v = vec![];
     let mut rng = Rng::derive(ctx.seed, 0xc05, 0);
@@ -643,9 +838,26 @@ pub fn run(ctx: &Ctx) -> i32 {
         acc.sample_every(37, || sp[i].json());
         judge(&sp[i], acc);
     });
-    let rule = format!("{} streams: sources JSON/MessagePack/YAML x targets JSON/MessagePack/YAML x 6 packetisations (one document per read, three per read, half a document, single bytes, 100 KB blocks, random) x explicit/detected x document size classes (tiny, ~1 KiB generated, ~50 KiB, ~300 KiB; YAML streams also open with a flow sequence, a flow mapping or an unmarked block mapping, use CR or CRLF line breaks throughout, or - one in seven - are UTF-16LE/BE or UTF-32LE/BE throughout) x stream lengths up to {} documents, generated on the fly with O(1) harness memory; the lag invariant is evaluated at EVERY read() call; peak live heap measured with a counting allocator per call and compared with the same stream at a tenth of the length; live heap sampled at the deciles of every stream of >= 1000 documents (steady growth over the second half = a per-document leak); distinct non-trivial = distinct stream specifications", sp.len(), if ctx.thorough() { 300000 } else { 3000 });
+    let mut acc = acc;
+    // the real binary, fed batch by batch through a pipe, a connected socket and a FIFO
+    let mut cli = vec![];
+    for src in STREAMING {
+        for channel in [Channel::Pipe, Channel::Socket, Channel::Fifo] {
+            for detect in [false, true] {
+                cli.push((src, channel, detect, STREAMING[(cli.len() / 2) % 3]));
+            }
+        }
+    }
+    let (batches, per_batch) = if ctx.thorough() { (40, 20_000) } else { (8, 1500) };
+    let cli_acc = crate::par::run(cli.len(), 1, |i, acc| {
+        let (src, channel, detect, to) = cli[i];
+        acc.distinct(&format!("cli {src:?} {channel:?} {detect} {to:?}"));
+        cli_stream(src, detect, to, channel, batches, per_batch, acc);
+    });
+    acc.merge(cli_acc);
+    let rule = format!("{} streams: sources JSON/MessagePack/YAML x targets JSON/MessagePack/YAML x 6 packetisations (one document per read, three per read, half a document, single bytes, 100 KB blocks, random) x explicit/detected x document size classes (tiny, ~1 KiB generated, ~50 KiB, ~300 KiB; YAML streams also open with a flow sequence, a flow mapping or an unmarked block mapping, use CR or CRLF line breaks throughout, or - one in seven - are UTF-16LE/BE or UTF-32LE/BE throughout) x stream lengths up to {} documents, generated on the fly with O(1) harness memory; the lag invariant is evaluated at EVERY read() call; peak live heap measured with a counting allocator per call and compared with the same stream at a tenth of the length; live heap sampled at the deciles of every stream of >= 1000 documents (steady growth over the second half = a per-document leak); plus the release binary fed {} batches of {} documents through a pipe, a connected AF_UNIX socket and a named FIFO (3 sources x named/detected, rotating target): after every batch, with the input still open, all but the last three documents delivered so far (less the 8 KiB stdout buffer) must have been translated (bounded wait, re-examined with a long wait before it counts), and the resident set may not grow with the stream; distinct non-trivial = distinct stream specifications", sp.len(), if ctx.thorough() { 300000 } else { 3000 }, batches, per_batch);
     ev::finish(
-        Finish { ctx, level: "exploration", rule, assumptions: vec!["memory bound constants: 2 MiB + 128 x largest document; growth slack 128 KiB (measured slack on the pinned tree: < 16 KiB, worst ratio 46 for dense YAML)".into(), "the harness's own allocations during a call are bounded by one packet plus a few queue entries".into()], extra: serde_json::Map::new(), exhaustive: false, min_distinct: 100, must_reach: vec![("read_calls_monitored".into(), 10000), ("length_pairs_compared".into(), 20), ("live_heap_decile_series_compared".into(), 20), ("streams_yaml_detected".into(), 5), ("streams_json_detected".into(), 5), ("streams_msgpack_detected".into(), 5), ("yaml_streams_in_utf16_or_utf32".into(), 8)] },
+        Finish { ctx, level: "exploration", rule, assumptions: vec!["memory bound constants: 2 MiB + 128 x largest document; growth slack 128 KiB (measured slack on the pinned tree: < 16 KiB, worst ratio 46 for dense YAML)".into(), "the harness's own allocations during a call are bounded by one packet plus a few queue entries".into(), "command-line streams: 'arrives' is decided by a bounded wait (20 s, then 90 s in a second run) on a logical condition; the resident set is read from /proc/<pid>/statm".into()], extra: serde_json::Map::new(), exhaustive: false, min_distinct: 100, must_reach: vec![("read_calls_monitored".into(), 10000), ("length_pairs_compared".into(), 20), ("live_heap_decile_series_compared".into(), 20), ("streams_yaml_detected".into(), 5), ("streams_json_detected".into(), 5), ("streams_msgpack_detected".into(), 5), ("yaml_streams_in_utf16_or_utf32".into(), 8), ("cli_stream_batches_translated_while_the_input_was_open".into(), 100), ("cli_stream_Socket".into(), 6), ("cli_stream_memory_flat".into(), 10)] },
         acc,
     )
 }
@@ -655,6 +867,24 @@ pub fn mem_main(_args: &[String]) -> i32 {
 }
 
 pub fn replay(v: &Value) -> i32 {
+    if v["case"]["part"].as_str() == Some("cli_stream") {
+        let c = &v["case"];
+        let (Some(src), Some(to)) = (c["source"].as_str().and_then(Fmt::parse), c["to"].as_str().and_then(Fmt::parse)) else { return 2 };
+        let channel = match c["channel"].as_str() {
+            Some("Socket") => Channel::Socket,
+            Some("Fifo") => Channel::Fifo,
+            _ => Channel::Pipe,
+        };
+        let mut acc = Acc::default();
+        cli_stream(src, c["detect"].as_bool().unwrap_or(false), to, channel, c["batches"].as_u64().unwrap_or(8) as usize, c["per_batch"].as_u64().unwrap_or(1500) as usize, &mut acc);
+        return if acc.vio_count > 0 {
+            println!("VIOLATION property=C05 replay=<this file> (reproduced): {}", acc.violations[0].observed);
+            1
+        } else {
+            println!("not reproduced");
+            0
+        };
+    }
     let Some(spec) = StreamSpec::parse(&v["case"]) else {
         println!("bad replay case");
         return 2;
